@@ -35,13 +35,14 @@ THEOREMS = [
     "Sys.Emit.execS_emits", "Sys.Emit.execB_emits", "Sys.Emit.execB_top", "Sys.Emit.F.proj", "Sys.Emit.denB_range",
     "Sys.C01.execB_emits", "Sys.C01.emitted_is_forest", "Sys.C01.parse_reconstructs", "Sys.C01.roundtrip", "Sys.C01.field_values",
     "Sys.C01.roundtrip_lines", "Sys.C01.JsonView.codec_ok", "Sys.C01.roundtrip_file",
+    "Sys.C01.extracted_fields", "Sys.Emit.extOf_nearest",
 ]
 RULE = ("structured logging programs from harness/sysgen.py (profile: no explicit handles / remote ids, no failing serializers or "
         "destinations, destinations [recording, binary FileDestination, text FileDestination] registered first, typed actions and "
         "messages with succeeding serializers, tasks started inside actions, context-less messages, try/except with write_traceback, "
-        "add_success_fields, exceptions of generated classes incl. BaseException subclasses and raising __str__); batch A = exactly the "
-        "fragment of the theorems (no exception extractors), batch B = additionally non-raising exception extractors (tie + oracle "
-        "only); every program is parsed in emission order, reversed and 2 (quick) / 4 (thorough) seeded shuffles; non-trivial = depth "
+        "add_success_fields, exceptions of generated classes incl. BaseException subclasses and raising __str__); batch A = no exception "
+        "extractors, batch B = non-raising exception extractors registered on generated and builtin classes (resolved along the MRO; "
+        "30% return a key eliot sets itself: reason / exception / traceback) - both inside the theorems' fragment; every program is parsed in emission order, reversed and 2 (quick) / 4 (thorough) seeded shuffles; non-trivial = depth "
         ">= 2, >= 6 messages, >= 1 failed action and (typed field or task inside an action); distinct by canonical hash of the program")
 TRUSTED = ["uuid4() does not collide (a counter in the harness, as in the model)", "time.time() is replaced by a counter (timestamps never compared otherwise)",
            "json.loads (CPython) reads what orjson wrote (C10 states the codec laws on the model; here the real pair is exercised on every line)",
@@ -50,7 +51,9 @@ ASSUMPTIONS = ["structured programs: with-blocks, messages, add_success_fields o
                "explicit finish / context() / run / serialize_task_id+continue_task are covered by C02/C04/C06, not here",
                "registered destinations never raise (a raising one adds eliot:destination_failure messages to the current action: C08)",
                "field serializers do not raise and no declared field is missing (else eliot:serialization_failure replaces the message: C13)",
-               "no exception extractor in the theorems' fragment (batch B exercises non-raising ones on the real code and the executable model)",
+               "registered exception extractors do not raise (a raising one makes eliot log an eliot:traceback of its own: C07); they may return any fields, "
+               "eliot's own exception/reason/action_status (traceback message: reason/traceback/exception) win on a key clash; an extractor must not return "
+               "action_type/action_status if write_traceback is used (Sys.Emit.extClean: the parser would read the traceback message as an action's end)",
                "field names avoid task_uuid/task_level/timestamp/action_type/action_status; field values are JSON-native (ints, strings, lists/dicts of them)",
                "the link FV -> JSON used by roundtrip_file is the hypothesis structure JsonView.Faithful (lower/native/distinct keys/invertible), not derived from the core model",
                "no global fields, destinations registered before the program starts"]
